@@ -12,7 +12,7 @@
 //! follow the type on MySQL, and auto-increment must take the dialect's form.
 
 mod ddl;
-mod gen;
+pub mod gen;
 mod spec;
 mod types;
 
